@@ -484,7 +484,7 @@ void DOMRangeImpl::selectNode(const DOMNode* refNode)
         if (type == DOMNode::PROCESSING_INSTRUCTION_NODE)
             fEndOffset = XMLString::stringLen(((DOMProcessingInstruction*)refNode)->getData());
         else
-            fEndOffset = ((DOMText *)refNode)->getLength();
+            fEndOffset = ((const DOMCharacterData *)refNode)->getLength();
         return;
     }
 
@@ -518,7 +518,7 @@ void DOMRangeImpl::selectNodeContents(const DOMNode* node)
         || type == DOMNode::CDATA_SECTION_NODE
         || type == DOMNode::COMMENT_NODE)) {
 
-        fEndOffset = ((DOMText *)node)->getLength();
+        fEndOffset = ((const DOMCharacterData *)node)->getLength();
         return;
     }
     if (type == DOMNode::PROCESSING_INSTRUCTION_NODE) {
